@@ -1,0 +1,6 @@
+//go:build !verif && !windows
+
+package daemon
+
+// verifPause is a schedule hook that only exists under build tag verif; without the tag it does nothing.
+func verifPause() {}
